@@ -262,6 +262,19 @@ GEO_LAYOUT_OUTPUTS = {'Reservoir Impedance': ['Average Pumping Power', 'Heat to 
                       'Drawdown Parameter': ['Average Pumping Power', 'Heat to Power Conversion Efficiency']}
 
 
+# a GEOPHIRES set-up with the multiple-parallel-fractures reservoir model in which ONLY the fracture separation is sampled: the
+# non-dimensional time of the model's inverse Laplace transform is the same in every iteration, whatever is remembered per
+# non-dimensional time between iterations of one worker (or inherited from the parent at fork) meets another separation
+GEO_MPF_EXTRA = ('Reservoir Model, 1\nPlant Lifetime, 10\nTime steps per year, 1\nReservoir Volume Option, 1\nFracture Shape, 1\n'
+                 'Fracture Area, 200000\nNumber of Fractures, 10\nFracture Separation, 40\n')
+GEO_MPF_INPUTS = [
+    {'name': 'Fracture Separation', 'dist': 'uniform', 'args': [25.0, 80.0], 'edge': False, 'discrete': False},
+    {'name': 'Fracture Separation', 'dist': 'triangular', 'args': [25.0, 40.0, 90.0], 'edge': False, 'discrete': False},
+]
+GEO_MPF_OUTPUTS = ['Average Production Temperature', 'Average Net Electricity Production', 'Minimum Production Temperature',
+                   'Average Reservoir Heat Extraction']
+
+
 # --------------------------------------------------------------------------------------
 # a user-supplied program (the driver's generic path: any other Code_File is started with subprocess.Popen and is expected to
 # read <input file> and write <output file>).  The model below is what the simulated child process does; it is a pure function
@@ -295,6 +308,8 @@ TOY_INPUTS = {
 }
 
 TOY_OUTPUTS = ['Net Yield', 'Loss Factor', 'Total Cost', 'Margin', 'Unit Cost', 'Site Index']
+# printed as a number for some results and as the text 'N/A' for others (what GEOPHIRES does with a payback period that is never reached)
+TOY_NA_OUTPUT = 'Payback Period'
 
 
 def toy_report(text):
@@ -324,4 +339,5 @@ def toy_report(text):
     if n > 1:
         lines.append(f'      Unit Cost: {(a * 1e6 + b) / n:.1f} USD')      # only printed for some results
     lines.append(f'      Site Index: {a * 7 + g:.4f}')
+    lines.append(f'      Payback Period: {b / a:.2f} yr' if b / a < 11.0 else '      Payback Period: N/A')
     return '\n'.join(lines) + '\n'
